@@ -586,10 +586,7 @@ func (e *Exec) zz(name string, args []Value, fn *ssa.Function) Value {
 		return v
 	case "Bytes", "String":
 		nt := args[0].(*Term)
-		if !nt.IsConst() {
-			panic(engineBug{"zzverif.Bytes with symbolic length"})
-		}
-		n := int(nt.Val)
+		n := int(e.concretize(nt, 0, e.job.MaxAlloc))
 		a := &ArrayV{E: e.freshBytes(n)}
 		o := e.newObject(a, nil, "zzverif."+name)
 		if name == "String" {
